@@ -337,9 +337,42 @@ def main(argv):
                 print("VIOLATION property=%s replay=%s no-failing-input-found" % (pid, replay_path))
             rc = 1
     elif undecided:
-        for o in undecided[:12]:
-            print("UNDECIDED-OBLIGATION property=%s %s\n%s" % (pid, o.key(), o.detail[:600]))
-        rc = 2
+        # obligations the verifier could not decide (resource limit).  Not a violation by themselves -- but if the replay
+        # search finds an input on which the real code disagrees with the independent oracle, the obligation that was
+        # discharged on the unchanged tree is now undischarged AND a concrete failing input exists: reported as a violation.
+        witness, note = None, ""
+        und_verus = [(o.unit, o.kind, o.name) for o in undecided if o.unit != "kani" and o.kind in ("lemma", "definedness", "exec")]
+        if und_verus and os.environ.get("VERIF_NO_REPLAY") != "1":
+            try:
+                import replay as rp
+                witness, note = rp.find_witness(pl.REPO, und_verus, int(os.environ.get("VERIF_SEED", "0") or 0))
+            except Exception as e:
+                witness, note = None, "replay machinery failed: %r" % (e,)
+        if witness:
+            os.makedirs(os.path.join(pl.GEN, "replay"), exist_ok=True)
+            replay_path = os.path.join(pl.GEN, "replay", "%s_%d.txt" % (pid, int(time.time())))
+            with open(replay_path, "w") as f:
+                f.write("property %s: obligations that the verifier could no longer discharge (resource limit), together with a failing input\n\n" % pid)
+                f.write("FAILING INPUT replayed on the real code (binary /verif/replay built against %s):\n" % pl.REPO)
+                f.write("  type      : %s\n  operation : %s\n  operands  : %s   (parts in declaration order; None = absent part)\n  scalars   : %s\n" % (witness["type"], witness["function"], witness["operands"], witness["scalars"]))
+                f.write("  observed  : %s\n  expected  : %s   (%s)\n" % (witness["observed"], witness["expected"], witness.get("oracle", "independent truncated-Taylor oracle, lib/oracle.py")))
+                f.write("  reproduce : echo '%s' | %s\n\n" % (rp.fmt_req(witness["type"], witness["function"], witness["operands"], witness["scalars"]), "<.cache/replay-target*/release/replay>"))
+                for o in undecided:
+                    f.write("== obligation %s (undischarged)\n   what: %s\n   verifier output:\n%s\n" % (o.key(), o.what, o.detail))
+            for o in undecided[:12]:
+                print("FAILED-OBLIGATION property=%s %s :: undischarged (resource limit) and a failing input exists :: %s" % (pid, o.key(), o.what))
+            print("VIOLATION property=%s replay=%s" % (pid, replay_path))
+            for o in undecided:
+                if o.unit != "kani":
+                    o.status = "failed"
+            new_fail = [(o, []) for o in undecided if o.status == "failed"]
+            failed = failed + [o for o, _ in new_fail]
+            undecided = [o for o in undecided if o.status == "undecided"]
+            rc = 1
+        else:
+            for o in undecided[:12]:
+                print("UNDECIDED-OBLIGATION property=%s %s\n%s" % (pid, o.key(), o.detail[:600]))
+            rc = 2
     samples = [dict(obligation=o.key(), statement=o.what, status=o.status) for o in (discharged[:4] + discharged[-3:] + failed[:3])]
     cmds = sorted({c for u in info["units"].values() for c in u["cmds"]})
     cov = dict(
